@@ -18,6 +18,8 @@ sys.path.insert(0, VERIF)
 from vlib import engine  # noqa: E402
 
 E1 = {
+    'C01': 'harness.c01_conform',
+    'C08': 'harness.c08_errors',
     'C09': 'harness.c09_resolver',
     'C14': 'harness.c14_node',
 }
